@@ -574,3 +574,65 @@ def run_check(prop: str, analyse: Callable[[Report], None], tier: str,
     print(f'OK property={prop} tier={tier} rules={len(rep.rules)} instances={n} '
           f'known={len(known_hit)} wall={wall:.2f}s')
     return 0
+
+
+# ---------------------------------------------------------------------------------------------
+# polynomial normal form (sums of products of names with integer coefficients)
+def poly(e: ast.AST) -> dict[tuple[str, ...], int] | None:
+    """`a + (c - 1) * i` -> {('a',): 1, ('c', 'i'): 1, ('i',): -1}; None when e is not a polynomial in
+    names / dotted attributes with integer constants"""
+    if isinstance(e, ast.Constant) and isinstance(e.value, int) and not isinstance(e.value, bool):
+        return {(): e.value} if e.value else {}
+    d = dotted(e)
+    if d is not None:
+        return {(d,): 1}
+    if isinstance(e, ast.UnaryOp) and isinstance(e.op, ast.USub):
+        p = poly(e.operand)
+        return None if p is None else {k: -v for k, v in p.items()}
+    if isinstance(e, ast.BinOp) and isinstance(e.op, (ast.Add, ast.Sub, ast.Mult)):
+        a, b = poly(e.left), poly(e.right)
+        if a is None or b is None:
+            return None
+        out: dict[tuple[str, ...], int] = {}
+        if isinstance(e.op, ast.Mult):
+            for ka, va in a.items():
+                for kb, vb in b.items():
+                    k = tuple(sorted(ka + kb))
+                    out[k] = out.get(k, 0) + va * vb
+        else:
+            sg = 1 if isinstance(e.op, ast.Add) else -1
+            out = dict(a)
+            for k, v in b.items():
+                out[k] = out.get(k, 0) + sg * v
+        return {k: v for k, v in out.items() if v}
+    return None
+
+
+def poly_sub(a: dict, b: dict) -> dict:
+    out = dict(a)
+    for k, v in b.items():
+        out[k] = out.get(k, 0) - v
+    return {k: v for k, v in out.items() if v}
+
+
+def poly_cmp(test: ast.AST, truth: bool = True) -> tuple[dict, int] | None:
+    """an integer comparison as `p <= bound` with bound 0 or -1 (strict): (p, bound)"""
+    if not (isinstance(test, ast.Compare) and len(test.ops) == 1):
+        return None
+    l, r = poly(test.left), poly(test.comparators[0])
+    if l is None or r is None:
+        return None
+    op = type(test.ops[0])
+    if not truth:
+        op = {ast.Lt: ast.GtE, ast.LtE: ast.Gt, ast.Gt: ast.LtE, ast.GtE: ast.Lt}.get(op)
+        if op is None:
+            return None
+    if op is ast.Lt:
+        return poly_sub(l, r), -1
+    if op is ast.LtE:
+        return poly_sub(l, r), 0
+    if op is ast.Gt:
+        return poly_sub(r, l), -1
+    if op is ast.GtE:
+        return poly_sub(r, l), 0
+    return None
